@@ -42,16 +42,16 @@ func c12Case(r *core.Run, idx int, rng *rand.Rand) {
 	mustRegister(e.W, d, "appA")
 	mustRegister(e.W, stdSP(1), "appB")
 	hostile := idx%4 == 0
-	u := randUser(rng, fmt.Sprintf("UMK%dx", idx), hostile)
+	u := randUser(rng, fmt.Sprintf("U_MK%dx", idx), hostile)
 	// some custom attributes share the name of a standard one or use an empty format
 	if rng.Intn(3) == 0 {
-		u.Custom = append(u.Custom, sim.Custom{Name: "Email", Format: "urn:oasis:names:tc:SAML:2.0:attrname-format:uri", Values: []string{fmt.Sprintf("UMK%dxalt", idx)}})
+		u.Custom = append(u.Custom, sim.Custom{Name: "Email", Format: "urn:oasis:names:tc:SAML:2.0:attrname-format:uri", Values: []string{fmt.Sprintf("U_MK%dxalt", idx)}})
 	}
 	if rng.Intn(3) == 0 {
-		u.Custom = append(u.Custom, sim.Custom{Name: fmt.Sprintf("UMK%dxnoformat", idx), Format: "", Values: []string{fmt.Sprintf("UMK%dxnf", idx)}})
+		u.Custom = append(u.Custom, sim.Custom{Name: fmt.Sprintf("U_MK%dxnoformat", idx), Format: "", Values: []string{fmt.Sprintf("U_MK%dxnf", idx)}})
 	}
 	e.W.AddUser(u)
-	other := randUser(rng, fmt.Sprintf("UMK%dxother", idx), false)
+	other := randUser(rng, fmt.Sprintf("U_MK%dxother", idx), false)
 	e.W.AddUser(other)
 
 	q := conformantQuery(rng, d, u.Username)
@@ -158,7 +158,7 @@ func c12Case(r *core.Run, idx int, rng *rand.Rand) {
 		return
 	}
 	dd := call.D
-	leaked := strings.Contains(dd.FullText(), "UMK")
+	leaked := strings.Contains(dd.FullText(), "U_MK")
 	if leaked {
 		r.Count("replies_with_user_data", 1)
 		if !issuerReg {
